@@ -22,7 +22,7 @@ def sh(cmd, cwd, timeout=1500):
 def main():
     ap = argparse.ArgumentParser()
     ap.add_argument("wt"); ap.add_argument("name"); ap.add_argument("prop")
-    ap.add_argument("--demo-run"); ap.add_argument("--demo-pkg")
+    ap.add_argument("--demo-run"); ap.add_argument("--demo-pkg"); ap.add_argument("--tags")
     a = ap.parse_args()
     wt = os.path.abspath(a.wt)
     patch = os.path.join(wt, "patch.diff")
@@ -56,7 +56,8 @@ def main():
             shutil.copy(os.path.join(wt, d), os.path.join(scratch, d))
         pkgs = a.demo_pkg or " ".join(sorted({"./" + (os.path.dirname(d) or ".") for d in demos if d.endswith("_test.go")}))
         run = ("-run '%s'" % a.demo_run) if a.demo_run else ""
-        cmd = "go test -vet=off -count=1 %s %s" % (run, pkgs)
+        tags = ("-tags %s" % a.tags) if a.tags else ""
+        cmd = "go test -vet=off -count=1 %s %s %s" % (tags, run, pkgs)
         res["demo_cmd"] = cmd
         rc1, out1 = sh(cmd, scratch)
         print("demo WITH patch (rc=%d):\n%s" % (rc1, "\n".join(out1.splitlines()[-12:])))
